@@ -71,7 +71,20 @@ LatticeInit ==
                             [] OTHER -> <<Entry(<< >>, "s1", "k3", LinkD("s1", <<GoodSig("k3")>>, {}, Variant(v3)))>>)
                       \o (IF two THEN S2 ELSE << >>), {})
 
-MCInit == (LatticeInit \/ MixInit) /\ VInitRest
+\* a link file with a second signature entry whose key id merely LOOKS like the functionary's (same first eight
+\* characters - the part the file name carries - different further on; "k1~" in the concretisation): which entry
+\* names the file's signer must not be a matter of iteration order
+LookAlike(k) == [kid |-> k \o "~", by |-> "kx", ok |-> FALSE]
+LookAlikeInit ==
+  \E first \in BOOLEAN, thr \in {1, 2}, two \in BOOLEAN :
+     scn = Build(Layout(thr, "allow", two), Own("o1"),
+                 <<Entry(<< >>, "s1", "k1",
+                         LinkD("s1", IF first THEN <<LookAlike("k1"), GoodSig("k1")>> ELSE <<GoodSig("k1"), LookAlike("k1")>>,
+                               {}, Variant("A"))),
+                   Entry(<< >>, "s1", "k2", LinkD("s1", <<GoodSig("k2"), LookAlike("k2"), LookAlike("k1")>>, {}, Variant("A")))>>
+                 \o (IF two THEN S2 ELSE << >>), {})
+
+MCInit == (LatticeInit \/ MixInit \/ LookAlikeInit) /\ VInitRest
 
 
 MCSpec == MCInit /\ [][VNext]_vars
